@@ -197,6 +197,10 @@ func Exec(in *Inst, o m.Op) (res *Result) {
 				res.GenIDs = append(res.GenIDs, docs[i].ObjectId())
 			}
 		}
+	case "insertTwice":
+		// the very same document object twice in one batch (with or without an _id of its own)
+		doc := Doc(o.Docs[0])
+		res.Err = db.Insert(o.Coll, doc, doc)
 	case "insertOne":
 		doc := Doc(o.Docs[0])
 		id, err := db.InsertOne(o.Coll, doc)
